@@ -36,7 +36,8 @@ TAU = 1e-8
 def gen_case(rng, cfg, idx):
     for _ in range(10):
         b, base, n_inplace = gen_history(rng, nstmts=cfg["nstmts"], int_prob=0.0, nonconst_only=True, setshape_w=0.3,
-                                         const_kw_prob=0.45 if idx % 5 == 4 else 0.0, cv_as_targets=True, layer_reads=True)
+                                         const_kw_prob=0.45 if idx % 5 == 4 else 0.0, cv_as_targets=True, layer_reads=True,
+                                         bad_w=cfg.get("bad_w", 0.0))
         L = add_readout(b, rng)
         if L is None:
             continue
